@@ -9,9 +9,11 @@ from genlib import *
 LEAN_MODULES = ["MpirProofs.Props.C05_ptr2"]
 THEOREMS = ["Mpir.AliasMem.rootrem_ptr_spec", "Mpir.AliasMem.rootrem_exceptions",
             "Mpir.AliasMem.mpz_mul_ptr_spec", "Mpir.AliasMem.gcdext_ptr_spec",
-            "Mpir.AliasMem.mpf_div_ptr_spec", "Mpir.AliasMem.mpf_div_by_zero"]
+            "Mpir.AliasMem.mpf_div_ptr_spec", "Mpir.AliasMem.mpf_div_by_zero",
+            "Mpir.AliasMem.powm_ptr_spec", "Mpir.AliasMem.powm_ui_ptr_spec", "Mpir.AliasMem.addmul_ptr_spec", "Mpir.AliasMem.submul_ptr_spec",
+            "Mpir.AliasMem.mpz_sqrt_ptr_spec", "Mpir.AliasMem.mpz_lcm_ptr_spec", "Mpir.AliasMem.mpz_invert_ptr_spec"]
 PINS = [("mpz/mul.c", None), ("gmp-mparam.h", "MUL_KARATSUBA_THRESHOLD"), ("mpz/gcdext.c", None), ("mpz/powm.c", None), ("mpz/powm_ui.c", None),
-        ("mpz/aorsmul.c", None), ("mpz/aorsmul_i.c", None), ("mpf/div.c", None), ("mpf/mul.c", None), ("mpf/sqrt.c", None), ("mpf/div_ui.c", None)]
+        ("mpz/aorsmul.c", None), ("mpz/aorsmul_i.c", None), ("mpz/sqrt.c", None), ("mpz/lcm.c", None), ("mpz/invert.c", None), ("mpf/div.c", None), ("mpf/mul.c", None), ("mpf/sqrt.c", None), ("mpf/div_ui.c", None)]
 TRUSTED = ["hand-written pointer-level models lean/Mpir/Model/AliasMul.lean (tied by the ops alias_mul … of harness/ops_alias2.c on every "
            "index assignment: values, ALLOC and which blocks were replaced; source pins on mul.c and MUL_KARATSUBA_THRESHOLD)"]
 ASSUMPTIONS = ["pointer-level model: mpn_mul / mpn_mul_basecase / mpn_sqr / mpn_mul_1 are taken at their contract on values (limb-level proofs: C01); "
@@ -192,3 +194,33 @@ def gen_ops(rng, tier, ctx=None):
                 ui = rng.choice([1, 2, 3, 10, 1 << 63, (1 << 64) - 1, rng.getrandbits(rng.randrange(1, 65)) | 1])
                 if rng.random() < 0.03: ui = 0
                 yield "alias_fdiv_ui %x %x 0 %x %s %s %s" % (r, u, ui, fop(), fop(), fop())
+    # mpz_sqrt (root, op): root = op, squares / squares - 1, odd and even limb counts, a root block that must grow; negative operand
+    for r in range(4):
+        for o in range(4):
+            for _ in range(reps * 3):
+                vals = [_sg(rng, _mag(rng, rng.choice([0, 1, 1, 2, 5]))) for _ in range(4)]
+                tt = _mag(rng, rng.choice([1, 1, 2, 3, big // 2 + 1]))
+                k = rng.randrange(5)
+                vals[o] = [tt * tt, tt * tt - 1, tt * tt + 2 * tt, _mag(rng, rng.choice([1, 2, 3, 4, big])), 0][k]
+                if rng.random() < 0.03: vals[o] = -abs(vals[o]) - 1
+                yield "alias_sqrt %x %x 0 0 %s" % (r, o, " ".join(hx(v) for v in vals))
+    # mpz_lcm (r, u, v): one-limb arms (either operand), general arm, r = u, r = v, u = v, common factors, zero operands
+    for r in range(4):
+        for u in range(4):
+            for v in range(4):
+                for _ in range(reps):
+                    vals = [_sg(rng, _mag(rng, rng.choice([0, 1, 1, 2, 5]))) for _ in range(4)]
+                    c = _mag(rng, rng.choice([1, 1, 2]))
+                    vals[u] = _sg(rng, c * _mag(rng, rng.choice([0, 1, 1, 2, 3, big // 2])))
+                    if v != u: vals[v] = _sg(rng, c * _mag(rng, rng.choice([0, 1, 1, 2, 3])))
+                    if rng.random() < 0.2: vals[u] = _sg(rng, rng.choice([1, 2, 6, (1 << 64) - 1]))
+                    yield "alias_lcm %x %x %x 0 %s" % (r, u, v, " ".join(hx(t) for t in vals))
+    # mpz_invert (inverse, x, n): inverse = x, inverse = n, x = n; invertible or not; n = +-1, x = 0, negative n, x > n
+    for r in range(4):
+        for x in range(4):
+            for n in range(4):
+                for _ in range(reps):
+                    vals = [_sg(rng, _mag(rng, rng.choice([0, 1, 1, 2, 5]))) for _ in range(4)]
+                    vals[n] = _sg(rng, rng.choice([1, 1, 2, _mag(rng, 1) | 1, _mag(rng, 2), _mag(rng, 3) | 1, 1 << 64, 3 * 5 * 7 * 11]))
+                    if x != n: vals[x] = _sg(rng, rng.choice([0, 1, 3, 5, _mag(rng, 1), _mag(rng, 2) | 1, _mag(rng, 4)]))
+                    yield "alias_invert %x %x %x 0 %s" % (r, x, n, " ".join(hx(t) for t in vals))
